@@ -213,7 +213,7 @@ func (vc *VC) rangeNext(fr *Frame, st *State, ins *ssa.Next) Val {
 	r, _ := vc.symbolic(types.Typ[types.Int32], "rng.rune")
 	if it != nil && it.X.K == KScalar {
 		vc.declStr()
-		vc.assume(st, implies(okv, and(sx("bvsle", i64(0), k.S), sx("bvslt", k.S, sx("str.len", it.X.S)))))
+		vc.assume(st, implies(okv, and(sx("bvsle", i64(0), k.S), sx("bvslt", k.S, sx("s.len", it.X.S)))))
 	}
 	return Val{K: KTuple, T: ins.Type(), F: []Val{boolVal(okv), k, r}}
 }
